@@ -12,7 +12,7 @@ import (
 )
 
 func init() {
-	props["C05"] = &propDef{run: runC05, explanation: "Partial (thin): that the 377-line recursive-descent re-serialiser and the number formatter produce the RFC 8785 form for every I-JSON value (fixed point, value preservation, spelling independence) is value-level and NOT decided. Decided statically — the constants and tables the RFC fixes, each a necessary condition: (T1) the two escape tables hold the seven RFC 8785 two-character escapes pairwise aligned, and reader and writer index both tables with one loop variable; (K1) the writer emits the remaining control characters (< 0x20) with the format \\u%04x (lower-case hex) and the reader rejects raw control bytes inside strings; (K2) NumberToJSON rejects NaN/Infinity by the exponent mask 0x7ff0000000000000, maps ±0 to \"0\", and selects fixed notation exactly for 1e-6 ≤ |x| < 1e21; (P1) the member sort key is unicode/utf16.Encode of the runes of the parsed member name, the ordering function reads only sort keys, equal keys raise an error, and a preceding key is inserted before the compared element; (P2) MarshalCanonical hands every value to Transform (json.Marshal first unless it already is []byte); (K3) the whitespace set is {0x20,0x0a,0x0d,0x09} and the literal table {true,false,null}. (K2) every string-valued call the accepted number text depends on is strconv.FormatFloat; (P2) canonicalisation, hashing and commitment functions read no package-level state that changes after initialisation. A string token is emitted as writer(reader()) (P4). With no differing code unit the shorter sort key precedes, equal keys raise the duplicate error, a longer key does not precede (three orderings of the two lengths). (K4) the value of a \\uXXXX escape is the library's base-16 parse of its digits; (K3) no byte cut from a wider integer is written, every byte set that mentions whitespace holds all four whitespace characters."}
+	props["C05"] = &propDef{run: runC05, explanation: "Partial (thin): that the 377-line recursive-descent re-serialiser and the number formatter produce the RFC 8785 form for every I-JSON value (fixed point, value preservation, spelling independence) is value-level and NOT decided. Decided statically — the constants and tables the RFC fixes, each a necessary condition: (T1) the two escape tables hold the seven RFC 8785 two-character escapes pairwise aligned, and reader and writer index both tables with one loop variable; (K1) the writer emits the remaining control characters (< 0x20) with the format \\u%04x (lower-case hex) and the reader rejects raw control bytes inside strings; (K2) NumberToJSON rejects NaN/Infinity by the exponent mask 0x7ff0000000000000, maps ±0 to \"0\", and selects fixed notation exactly for 1e-6 ≤ |x| < 1e21; (P1) the member sort key is unicode/utf16.Encode of the runes of the parsed member name, the ordering function reads only sort keys, equal keys raise an error, and a preceding key is inserted before the compared element; (P2) MarshalCanonical hands every value to Transform (json.Marshal first unless it already is []byte); (K3) the whitespace set is {0x20,0x0a,0x0d,0x09} and the literal table {true,false,null}. (K2) every string-valued call the accepted number text depends on is strconv.FormatFloat; (P2) canonicalisation, hashing and commitment functions read no package-level state that changes after initialisation. A string token is emitted as writer(reader()) (P4). With no differing code unit the shorter sort key precedes, equal keys raise the duplicate error, a longer key does not precede (three orderings of the two lengths). (K4) the value of a \\uXXXX escape is the library's base-16 parse of its digits; (K3) no byte cut from a wider integer is written, every byte set that mentions whitespace holds all four whitespace characters. Nothing orders two strings as strings; scanner rules K5 (escape values uncompared, string bytes not through the ASCII-only reader, table searches found/not-found only, structural characters through the skipping scanner, position loops advance)."}
 }
 
 // globalByteSlice: constants of a package-level []byte / []string literal initialised in init.
